@@ -507,6 +507,19 @@ def _():
     return G.emit_strings('p_residual', rows, 'residual loop dataflow (pinned shape)')
 
 
+@item('p_decode')
+def _():
+    """public decoders (pinned shape): VectorQuantize / SimVQ / FSQ / LFQ / LatentQuantize"""
+    rows = []
+    for q in ('VectorQuantize.get_codes_from_indices', 'VectorQuantize.get_output_from_indices'):
+        rows += [q + ':' + ast.unparse(n).replace('\n', ' ') for n in find_func(VQ, q).body if not (isinstance(n, ast.Expr) and isinstance(n.value, ast.Constant))]
+    rows += ['SimVQ.indices_to_codes:' + ast.unparse(n).replace('\n', ' ') for n in find_func(SIMVQ, 'SimVQ.indices_to_codes').body]
+    rows += ['FSQ.indices_to_codes:' + ast.unparse(n).replace('\n', ' ') for n in find_func(FSQF, 'FSQ.indices_to_codes').body if not (isinstance(n, ast.Expr) and isinstance(n.value, ast.Constant))]
+    rows += ['LFQ.indices_to_codes:' + ast.unparse(n).replace('\n', ' ') for n in find_func(LFQF, 'LFQ.indices_to_codes').body]
+    rows += ['LatentQuantize.indices_to_codes:' + ast.unparse(n).replace('\n', ' ') for n in find_func(LQ, 'LatentQuantize.indices_to_codes').body if not (isinstance(n, ast.Expr) and isinstance(n.value, ast.Constant))]
+    return G.emit_strings('p_decode', rows, 'public decoders (pinned shape)')
+
+
 # =============================================================================== inventories (G4)
 for fname, cls, tag in ((VQ, 'EuclideanCodebook', 'euclid'), (VQ, 'CosineSimCodebook', 'cosine'), (VQ, 'VectorQuantize', 'vq'),
                         (FSQF, 'FSQ', 'fsq'), (LFQF, 'LFQ', 'lfq'), (SIMVQ, 'SimVQ', 'simvq'), (RPQ, 'RandomProjectionQuantizer', 'rpq'),
